@@ -1206,10 +1206,12 @@ class DigitalWaveform(Generic[TDigitalState]):
         new_timing = self._timing._append_timestamps(timestamps)
 
         self._increase_capacity(len(array))
-        self._set_timing(new_timing)
 
+        # Copy the samples before updating the timing so that a failed copy (for example, into a
+        # read-only buffer) leaves the waveform unchanged.
         offset = self._start_index + self._sample_count
         self._data[offset : offset + len(array)] = array
+        self._set_timing(new_timing)
         self._sample_count += len(array)
 
     def _append_waveform(self, waveform: DigitalWaveform[TDigitalState]) -> None:
@@ -1231,12 +1233,16 @@ class DigitalWaveform(Generic[TDigitalState]):
             new_timing = new_timing._append_timing(waveform._timing)
 
         self._increase_capacity(sum(waveform.sample_count for waveform in waveforms))
-        self._set_timing(new_timing)
 
+        # Copy the samples before updating the timing, sample count, and extended properties so that
+        # a failed copy (for example, into a read-only buffer) leaves the waveform unchanged.
         offset = self._start_index + self._sample_count
         for waveform in waveforms:
             self._data[offset : offset + waveform.sample_count] = waveform.data
             offset += waveform.sample_count
+
+        self._set_timing(new_timing)
+        for waveform in waveforms:
             self._sample_count += waveform.sample_count
             self._extended_properties._merge(waveform._extended_properties)
 
